@@ -153,6 +153,7 @@ def run(prog, tier, extra=None):
     R6 = res.rule("C11.sized-alloc", "capacities requested in handler-reachable bodies are constants or lengths of existing collections", floor=0)
     R7 = res.rule("C11.reject-leaves-pool", "the path that disposes of a refused block removes nothing from the transaction pool and releases no input reservation", floor=5)
     R8 = res.rule("C11.fetch-quota", "every block request handed out per peer consumes one unit of that peer's quota: `batch_size - fetching_count` cannot underflow", floor=1)
+    R9 = res.rule("C11.peer-assert", "no assert_eq!/assert_ne! in a handler-reachable body compares a field of a peer-decoded message", floor=0)
     R5 = res.rule("C11.peer-indexing", "indexing into fields of peer-decoded structures is covered by a dominating length fact", floor=60)
 
     _r2_cov = {}
@@ -486,6 +487,52 @@ def run(prog, tier, extra=None):
             res.add(Finding(R8, "C11.fetch-quota|free-transition", "get_blocks_to_fetch_per_peer moves an entry to Fetching without taking a unit of the per-peer quota in that iteration: a peer "
                             "whose fetches fail while more hashes are queued gets more than batch_size requests in flight, and the next round's `batch_size - fetching_count` underflows "
                             "(abort in a debug build, no limit at all in a release build)", ssb.loc(f8)))
+    # an `assert_eq!(response.public_key, ..)` on what the peer sent is a remote kill switch (saito-rust's panic hook exits the process)
+    for p9 in sorted(live):
+        b9 = prog.body(p9)
+        if b9 is None or b9.is_promoted or "/test/" in b9.file or "::tests::" in p9:
+            continue
+        ch9 = None
+        for bb, t in b9.calls():
+            n9 = call_name(t) or ""
+            if "panicking::assert_failed" not in n9 and "panicking::assert_failed" not in (t.get("res") or ""):
+                continue
+            ch9 = ch9 or c10.StableChaser(b9)
+            res.instance(R9)
+            ops = [ch9.origin(a) for a in t["args"][1:3]] if len(t["args"]) >= 3 else [ch9.origin(a) for a in t["args"]]
+            # the comparison that guards the failure block (the operands handed to assert_failed are references to temporaries)
+            cur, hops = bb, 0
+            while hops < 8:
+                preds = b9.pred(cur)
+                if len(preds) != 1:
+                    break
+                cur = preds[0]
+                hops += 1
+                pt = b9.term(cur)
+                if pt["k"] == "switch":
+                    ops.append(ch9.origin(pt["discr"]))
+                    break
+            # pattern bindings of `match (&a, &b)` hide the operands behind named locals and tuple fields: expand definitions
+            seen9, work9 = set(), list(ops)
+            while work9 and len(seen9) < 60:
+                e9 = work9.pop()
+                for y in walk(e9):
+                    if y[0] == "local" and y[1] not in seen9:
+                        seen9.add(y[1])
+                        for d in b9.defs(y[1]):
+                            x9 = ch9.rvalue(d[3], 0) if d[0] == "stmt" else ch9.call(d[2], d[1], 0) if d[0] == "call" else None
+                            if x9 is not None:
+                                ops.append(x9)
+                                work9.append(x9)
+            # only pure wire-message types: a Slip / Transaction / Block may equally be a value the node built itself
+            MSG_ADTS = tuple(a_ for a_ in PEER_ADTS if a_.startswith("msg::"))
+            peer_fields = sorted({"%s.%s" % (y[2].rsplit("::", 1)[-1], y[3]) for o in ops for y in walk(o)
+                                  if y[0] == "field" and any(y[2].endswith(a_) for a_ in MSG_ADTS)})
+            if peer_fields:
+                res.add(Finding(R9, "C11.peer-assert|%s|%s" % (p9.replace("::{closure#0}", ""), peer_fields[0]), "%s asserts on %s, which the remote peer chooses: one message aborts the handler "
+                                "(and with the native panic hook, the node)" % (p9.replace(CORE, "").replace("::{closure#0}", ""), ", ".join(peer_fields)), b9.loc(bb)))
+            else:
+                res.sample({"rule": R9, "site": b9.loc(bb), "verdict": "no peer-decoded field among the compared operands"})
     # a handler that waits for a lock in an inverted order never returns: lock-order findings inside handler-reachable bodies
     from ._include import include
     live_plain = {q.replace("::{closure#0}", "") for q in live}
